@@ -168,6 +168,20 @@ def gen_cases(rng, tier):
                 text = render_dec(*_dec_pair(x)) if _dec_pair(x) else f"{x.numerator}/{x.denominator}"
                 ops.append(["q_parse", rng.choice(["-", ctx.units[u]["cls"]]), f"{text} {u}", "-", mode])
         cases.append(_qty.case_of(ctx, ops, ["text"]))
+    # a type without reference unit and without converter: text naming one of
+    # its units plus a different explicit unit cannot be converted
+    setup = [["decl_class", "R", "-", "-", "0", "-"], ["new_unit", "R", "r1", "none"],
+             ["new_unit", "R", "r2", "none"], ["decl_class", "L", "-", "m", "0", "-"]]
+    ctx = _qty.Ctx(setup, {"r1": dict(cls="R", scale=None), "r2": dict(cls="R", scale=None),
+                           "m": dict(cls="L", scale=Fraction(1))},
+                   {"R": dict(dim={"R": 1}, ref=None, quantum=None),
+                    "L": dict(dim={"L": 1}, ref="m", quantum=None)}, "user")
+    ops = []
+    for text in ("5 r1", "-7/3 r1", "0 r1", "2.50 r2"):
+        for fac in ("-", "R"):
+            for unit in ("r1", "r2", "m"):
+                ops.append(["q_parse", fac, text, unit, MODE])
+    cases.append(_qty.case_of(ctx, ops, ["text", "unconvertible"]))
     return cases
 
 
